@@ -9,8 +9,8 @@ and evaluated on every assignment of the joint atom universe; outcomes are compa
 import ast
 
 from .. import AnalysisError
-from ..flow import view_of, FuncView
-from ..guards import Conds, Universe, to_formula, outcomes, show_asg, literals, TRUE
+from ..flow import view_of, untag as untag_, FuncView
+from ..guards import Conds, Universe, to_formula, outcomes, show_asg, literals, TRUE, show
 from ..model import U, ModInfo, FuncInfo
 from ..paths import enumerate_paths, symexec
 from ..symx import Norm, Unsupported
@@ -405,9 +405,71 @@ def check_tail(ctx, cls, f):
                 u3 = Universe(int_atoms=lambda a: True)
                 lhs = e.left
                 ok2 = pol and isinstance(e.ops[0], ast.Lt) and 'min(' in U(view.expand(lhs, drops[0])) and 'max(' not in U(view.expand(lhs, drops[0]))
+                if ok2:
+                    ok2 = _position_bound_ok(ctx.repo, f, view, e, drops[0], tail[0] if ok else None)
+        # the tally the keep test reads goes up by (at least) one exactly for the right-prefix tokens found in the left
+        # prefix dictionary - a token that is found but not counted lets a qualifying pair be dropped
+        okt = False
+        whyt = 'the overlap tally was not found'
+        if ok:
+            cur = tail[0].test.left.id if isinstance(tail[0].test.left, ast.Name) else None
+            incs = [n for n in ast.walk(lp) if isinstance(n, ast.AugAssign) and isinstance(n.target, ast.Name) and n.target.id == cur
+                    and isinstance(n.op, ast.Add)]
+            found_var = None
+            for n in ast.walk(lp):
+                if isinstance(n, ast.Assign) and isinstance(n.targets[0], ast.Name) and isinstance(n.value, ast.Call) \
+                        and isinstance(n.value.func, ast.Attribute) and n.value.func.attr == 'get' and len(n.value.args) == 1:
+                    found_var = n.targets[0].id
+            if cur and len(incs) == 1 and found_var:
+                inc = incs[0]
+                c_inc = Conds(f.node, None).of(inc)
+                c_loop = Conds(f.node, None).of(lp.body[0])
+                pos_found = to_formula(parse_expr('%s is not None' % found_var))
+                # relative to the loop body: inc runs iff found (and the pair was not dropped just before)
+                has_found = any(U(e) == '%s is not None' % found_var and pol for _, e, pol in literals(c_inc)) or \
+                    any(U(e) == '%s is None' % found_var and not pol for _, e, pol in literals(c_inc))
+                extra = [(U(e), pol) for _, e, pol in literals(c_inc)
+                         if (U(e), pol) not in [(U(e2), p2) for _, e2, p2 in literals(c_loop)]
+                         and found_var not in U(e) and U(e) not in [U(x[0]) for x in cmpl]]
+                okt = has_found and not extra and isinstance(inc.value, ast.Constant) and inc.value.value >= 1
+                whyt = '`%s` runs under `%s`; the tally must go up for every right-prefix token found in the left prefix ' \
+                       '(`%s is not None`) and only be skipped by the positional drop' % (U(inc), show(c_inc)[:100], found_var)
+            init = [d for d in view.reaching(cur, lp) if d.node is not None and not any(x is d.node for x in ast.walk(lp))] if cur else []
+        ctx.check('R-DT/filter_pair', f, 'overlap tally', okt, whyt, lp, sample='tally += 1 iff the token is in the left prefix')
         ctx.check('R-DT/filter_pair', f, 'positional drop', ok2,
                   'the positional early drop must be `current overlap + upper bound < required overlap` with the upper '
                   'bound the min of the two remainders', lp, sample='drop iff cur + 1 + min(rem_l, rem_r) < T')
+
+
+def _position_bound_ok(repo, f, view, cmp_, drop, keep_if):
+    """`cur + UB < T` with UB >= 1 + min(l_n - l_pos - 1, r_n - r_pos - 1): the roles are found structurally - T is the
+    name bound to get_overlap_threshold(l_n, r_n, ..), l_pos the name bound to <dict>.get(token), r_pos the position
+    counter of the right-prefix loop, cur the tally the final keep test reads"""
+    from ..symx import Norm, Unsupported
+    from .once import _discover_counter
+    T = l_n = r_n = lpos = None
+    for n in walk_own(f.node):
+        if isinstance(n, ast.Assign) and isinstance(n.targets[0], ast.Name) and isinstance(n.value, ast.Call):
+            if call_name(n.value) == 'get_overlap_threshold' and len(n.value.args) >= 2:
+                T, l_n, r_n = n.targets[0].id, U(n.value.args[0]), U(n.value.args[1])
+            if isinstance(n.value.func, ast.Attribute) and n.value.func.attr == 'get' and len(n.value.args) == 1:
+                lpos = n.targets[0].id
+    rpos = _discover_counter(f, view, 'rstring')
+    cur = None
+    if keep_if is not None and isinstance(keep_if.test, ast.Compare) and isinstance(keep_if.test.left, ast.Name):
+        cur = keep_if.test.left.id
+    if None in (T, l_n, r_n, lpos, rpos, cur):
+        return False
+    if U(cmp_.comparators[0]) != T:
+        return False
+    try:
+        norm = Norm()
+        got = norm.visit(untag_(view.expand(cmp_.left, drop, keep=(lpos, rpos, cur, l_n, r_n))))
+        want = norm.visit(parse_expr('%s + 1 + min(%s - %s - 1, %s - %s - 1)' % (cur, l_n, lpos, r_n, rpos)))
+        d = got.diff_const(want)
+    except Unsupported:
+        return False
+    return d is not None and d >= 0
 
 
 def check_validators(ctx):
